@@ -57,3 +57,10 @@ Theorem C12_result_independent_of_file_order_for_all_files : forall fs fs' v m m
                (rel_body (m_types m) T r <> None -> rel_attr (m_types m) T r = rel_attr (m_types m') T r)) /\
   (forall n, assoc n (m_conds m) = assoc n (m_conds m')).
 Proof. exact merge_content_order_unconditional. Qed.
+
+(* "the same ... on every invocation": the merge and the parser entry point it calls keep nothing between invocations —
+   no package-level variable of the hand-written packages holds data (run/gen_globals.py -> Gen/Globals.v, regenerated
+   from the working tree on every run) *)
+From Verif Require Import Gen.Globals.
+Theorem C12_no_state_between_invocations : stateful_globals = [].
+Proof. vm_compute. reflexivity. Qed.
